@@ -78,6 +78,7 @@ def run(P, rep, tier):
     guarded('R10.4', r104, P, u, T, rep, dres)
     guarded('R10.3', r103, P, u, T, rep)
     guarded('R10.5', r105, P, u, T, rep)
+    r105_width(P, u, rep)
     guarded('R10.7', r107, P, u, rep)
     guarded('R10.8', r108, P, u, T, rep, dres)
     guarded('R10.6', r106, P, rep)
@@ -1193,6 +1194,35 @@ def _r103_detect(P, u, T, rep):
         rep.ob('R10.3', '%s:%s:requires/%s' % (U, fn, k), k not in fails,
                'detect_include_guard can report a file as guarded without having checked that %s: a second #include of such a file is then suppressed although '
                'textual inclusion would yield text' % says[k], where=where, facts={'path': fails.get(k)})
+
+
+def r105_width(P, u, rep):
+    """the value of a #if / #elif expression (intmax_t arithmetic, C11 6.10.1p4) must reach the zero test unnarrowed"""
+    from ..interp import int_type
+    n = 0
+    for fname, fd in u.functions.items():
+        for c in fd.calls('eval_const_expr'):
+            n += 1
+            # climb through implicit casts / parens to the consumer
+            node = c
+            par = c.parent
+            narrowed = None
+            while par is not None and par.kind in ('ImplicitCastExpr', 'ParenExpr', 'CStyleCastExpr'):
+                t = int_type(par.dtype or par.type)
+                if t and t[0] < 64 and par.cast_kind in ('IntegralCast',):
+                    narrowed = par.dtype or par.type
+                node = par; par = par.parent
+            dest = None
+            if par is not None and par.kind == 'VarDecl':
+                dest = par.dtype or par.type
+            elif par is not None and par.kind == 'BinaryOperator' and par.opcode == '=' and par.inner[1] is node:
+                dest = par.inner[0].dtype or par.inner[0].type
+            dt = int_type(dest) if dest else None
+            ok = narrowed is None and (dt is None or dt[0] >= 64 or dt[0] == 1)
+            rep.ob('R10.5', '%s:%s:if-value-unnarrowed' % (U, fname), ok,
+                   'the value of a #if/#elif expression is stored in / converted to `%s` before it is tested: a non-zero multiple of 2^32 selects the wrong group (C11 6.10.1p4: intmax_t)' % (narrowed or dest), where='%s:%d' % (U, c.line))
+    if n == 0:
+        rep.undecided('R10.5', '%s:eval_const_expr:callers' % U, 'no caller of eval_const_expr found')
 
 
 # ------------------------------------------------------------------------------------------------ R10.5
